@@ -2,6 +2,7 @@ from vf import Query
 
 SRC = ["src/kernel/activity/ConditionVariableImpl.cpp", "src/kernel/activity/MutexImpl.cpp", "src/kernel/activity/ActivityImpl.cpp",
        "src/kernel/actor/SynchroObserver.cpp", "src/kernel/actor/SimcallObserver.cpp"]
+THOROUGH_MAX = 80  # all quick shapes + a fixed strided sample of the other thorough shapes (lib/vf.py)
 META = {
     "bounds": "waiters 0..3 (quick: 0..2) blocked in a single-simcall wait, each with or without a timeout action whose state (started/finished) is symbolic when the "
               "notification arrives; mutex free or held by another actor with 0..1 queued lockers; ops: notify_one, notify_all, timeout of the k-th waiter, wait by the mutex owner, and the model-checker split of wait (notified / not notified between its two simcalls, with / without timeout); unwind 8",
